@@ -29,7 +29,7 @@ from .sexp import frac, sx
 PRELUDE = """from typing import Any
 from bloqade.geometry.dialects import grid
 from kirin.dialects import ilist
-from bloqade.shuttle import action, spec
+from bloqade.shuttle import action, filled, spec
 from bloqade.shuttle.prelude import tweezer
 from harness import tweezer as _TW
 
@@ -123,6 +123,9 @@ def src_grid(g) -> str:
         return f'spec.get_static_trap(zone_id="{g[1]}")'
     if k == "special":
         return f'spec.get_special_grid(grid_id="{g[1]}")'
+    if k in ("vac", "fil"):
+        fn = "vacate" if k == "vac" else "fill"
+        return f"filled.{fn}({src_grid(g[1])}, [{', '.join(f'({i}, {j})' for i, j in g[2])}])"
     raise ValueError(g)
 
 
@@ -256,7 +259,26 @@ def ev_grid(g, env, traps):
         return traps[g[1]]
     if k == "special":
         return SPECIALS[g[1]]
+    if k == "vac":
+        return ("shift", ev_grid(g[1], env, traps), filled_token(g[2]), Fraction(0))
+    if k == "fil":
+        nx, ny = g[3]
+        return ("shift", ev_grid(g[1], env, traps),
+                filled_token([(i, j) for i in range(nx) for j in range(ny) if (i, j) not in set(g[2])]), Fraction(0))
     raise ValueError(g)
+
+
+def filled_token(vacancies) -> Fraction:
+    """The tracer treats a position as an opaque value with a shape and an equality.  A filled grid (parent, vacancies) is
+    sent to the model as the parent shifted in x by this offset: far outside the generators' coordinate range, injective in
+    the vacancy set, and commuting with `shift` (the only grid operation the generator applies on top of a filled grid) -
+    so two positions are equal in the model exactly when the real objects are, and a filled grid never equals a plain one."""
+    code = 0
+    for k, (i, j) in enumerate(sorted((int(i), int(j)) for i, j in vacancies)):
+        if not (-512 <= i < 512 and -512 <= j < 512):
+            raise ValueError("vacancy index outside the token range")
+        code += ((i + 512) * 1024 + (j + 512) + 1) * (1024 * 1024 + 1) ** k
+    return Fraction(2 ** 30) * (1 + code)
 
 
 def ev_sel(s, env):
@@ -323,8 +345,20 @@ def _flat_body(kernels, body, env, traps, ops, depth):
 
 
 # --------------------------------------------------------------------------- canonical forms of real values
+def canon_geom(g) -> str:
+    """the geometry of a real Grid (of a FilledGrid: of the grid under it) as the wire literal `(g (xs) (ys) x0 y0)`"""
+    return sx(("g", [frac(v) for v in g.x_spacing], [frac(v) for v in g.y_spacing],
+               None if g.x_init is None else frac(g.x_init), None if g.y_init is None else frac(g.y_init)))
+
+
 def canon_grid(g) -> str:
-    """real Grid -> wire literal `(g (xs) (ys) x0 y0)`"""
+    """real Grid -> wire literal `(g (xs) (ys) x0 y0)`; a FilledGrid -> its position token (see `filled_token`)"""
+    if type(g).__name__ == "FilledGrid":
+        p = g.parent
+        if p.x_init is None:
+            raise ValueError("filled grid over an empty axis has no position token")
+        return sx(("g", [frac(v) for v in p.x_spacing], [frac(v) for v in p.y_spacing],
+                   frac(Fraction(p.x_init) + filled_token(g.vacancies)), None if p.y_init is None else frac(p.y_init)))
     return sx(("g", [frac(v) for v in g.x_spacing], [frac(v) for v in g.y_spacing],
                None if g.x_init is None else frac(g.x_init), None if g.y_init is None else frac(g.y_init)))
 
@@ -453,6 +487,21 @@ class Gen:
             return ("item", ("gv", g), ix, iy)
         return ("from", self.positions(nx), self.positions(ny))
 
+    def pos_expr(self, gvars, ivars, shape, depth=2):
+        """a position handed to set_loc / move: a grid expression, or (sometimes) a filled grid built on one"""
+        nx, ny = shape
+        if nx >= 1 and ny >= 1 and self.rng.random() < self.filled_share:
+            inner = self.grid_expr(gvars, ivars, shape, depth=1)
+            sites = [(i, j) for i in range(nx) for j in range(ny)]
+            pairs = sorted(self.rng.sample(sites, self.rng.randrange(0, min(3, len(sites)) + 1)))
+            e = ("vac", inner, pairs) if self.rng.random() < 0.7 else ("fil", inner, pairs, (nx, ny))
+            if self.rng.random() < 0.3:
+                e = ("shift", e, self.float_expr(ivars), self.float_expr(ivars))
+            return e
+        return self.grid_expr(gvars, ivars, shape, depth)
+
+    filled_share = 0.12
+
     def selector(self, svars, ivars, n):
         r = self.rng.random()
         if svars and r < 0.3:
@@ -480,14 +529,14 @@ class Gen:
         for _ in range(n):
             r = self.rng.random()
             if not state["set"] and r < 0.8:
-                out.append(("set", self.grid_expr(gvars, ivars, shape)))
+                out.append(("set", self.pos_expr(gvars, ivars, shape)))
                 state["set"] = True
                 continue
             if r < 0.12:
-                out.append(("set", self.grid_expr(gvars, ivars, shape)))
+                out.append(("set", self.pos_expr(gvars, ivars, shape)))
                 state["set"] = True
             elif r < 0.40:
-                g = self.grid_expr(gvars, ivars, shape)
+                g = self.pos_expr(gvars, ivars, shape)
                 if self.rng.random() < 0.06:   # deliberate shape change (also to/from an empty axis)
                     other = self.rng.choice([(shape[0] + 1, shape[1]), (max(shape[0] - 1, 0), shape[1]),
                                              (shape[0], max(shape[1] - 1, 0))])
